@@ -5,6 +5,7 @@ import (
 	"testing"
 
 	"github.com/dominant-strategies/go-quai/common"
+	"github.com/dominant-strategies/go-quai/core/types"
 	"github.com/dominant-strategies/go-quai/core/vm"
 	"github.com/dominant-strategies/go-quai/params"
 
@@ -19,7 +20,7 @@ func handCase(ptn uint64, contractBal *big.Int, code func(a *evmgen.Asm)) *evmge
 	code(a)
 	p := a.Assemble()
 	env := &evmgen.Env{BlockNumber: 120000, PrimeTerminusNumber: ptn, BaseFee: big.NewInt(7), GasLimit: 12_000_000, Time: 1_700_000_000,
-		QuaiStateSize: big.NewInt(0), Eligible: evmgen.EligibleMask(common.Location{0, 1}, common.Location{1, 0}, common.Location{3, 3}), Coinbase: u.EOAs[0].Addr}
+		QuaiStateSize: big.NewInt(1_000_000), Eligible: evmgen.EligibleMask(common.Location{0, 1}, common.Location{1, 0}, common.Location{3, 3}), Coinbase: u.EOAs[0].Addr}
 	pre := &evmgen.PreState{Accounts: []evmgen.AccountSpec{
 		{Addr: u.Contracts[0], Balance: contractBal, Nonce: 1, Code: &p},
 		{Addr: u.EOAs[1].Addr, Balance: big.NewInt(12345)},
@@ -57,6 +58,11 @@ func handwrittenCases() []handwritten {
 		c.Tx.To, c.Tx.ToClass = nil, "create"
 		c.Tx.Data, c.Tx.DataNote = a.Assemble().Code, "init: RETURN 20000 zero bytes"
 		c.Tx.Value, c.Tx.Gas = big.NewInt(5000), 600000
+		// with access-list enforcement (block processing) the created address must be listed
+		if addr, ok := evmgen.PredictCreateAddress(u.EOAs[4].Addr, 0, c.Tx.Data, c.Env.BlockNumber); ok {
+			c.Tx.AccessList = types.AccessList{{Address: addr}}
+			c.Tx.ALClass = "created"
+		}
 		return c
 	}
 	wrapETX := func() *evmgen.Case {
